@@ -1,5 +1,6 @@
 import Req.Driver.Proto
 import Req.Pool.AltSvcParse
+import Req.Pool.MetaCharset
 /-! Driver lanes of C07. -/
 namespace Req.Driver.L.C07
 open Req.Proto
@@ -19,8 +20,20 @@ def laneAltSvc : List String → String
     | none => "bad-op"
   | _ => "bad-op"
 
+/-- `c07meta <content attribute>` → charset name found by `fromMetaElement` -/
+def laneMeta : List String → String
+  | [v] =>
+    match decodeHex v with
+    | some bs =>
+      match Req.MetaCharset.fromMetaElement bs with
+      | none => "out-of-fuel"
+      | some r => encodeHex r
+    | none => "bad-op"
+  | _ => "bad-op"
+
 def lanes : List (String × (List String → String)) := [
-  ("c07altsvc", laneAltSvc)
+  ("c07altsvc", laneAltSvc),
+  ("c07meta", laneMeta)
 ]
 
 end Req.Driver.L.C07
